@@ -342,9 +342,13 @@ func makeVaryHash(vary map[string]string) uint64 {
 	keys := make([]string, 0, len(vary))
 	keys = slices.AppendSeq(keys, maps.Keys(vary))
 	slices.Sort(keys)
+	// Names and values are delimited (NUL cannot occur in either), so that
+	// different maps never produce the same byte sequence.
 	for _, k := range keys {
 		_, _ = h.Write([]byte(k))
+		_, _ = h.Write([]byte{0})
 		_, _ = h.Write([]byte(vary[k]))
+		_, _ = h.Write([]byte{0})
 	}
 	return h.Sum64()
 }
